@@ -100,6 +100,15 @@ func (p *Plan) reaches(from, to int) bool {
 	return false
 }
 
+func addReq(pf *Fetch, r *FieldDef) {
+	for _, x := range pf.Req {
+		if x == r {
+			return
+		}
+	}
+	pf.Req = append(pf.Req, r)
+}
+
 func addUniq(xs []int, x int) []int {
 	for _, y := range xs {
 		if y == x {
@@ -127,10 +136,56 @@ func (g *Gen) object(p *Plan, t *TypeDef, cur *Fetch, sel *Sel, path []PathElem,
 		local[fd.Owner] = f
 		return f, f.Sel
 	}
+	// ReqChains: the required field may itself require another field (a chain of @requires): the provider of
+	// fd depends on the provider of fd.Requires, which depends on the provider of fd.Requires.Requires, ...;
+	// none of them depends on the head of the chain directly.  When the provider of fd is (transitively) needed
+	// by the provider of its own input, a second fetch to the same subgraph is planned (as the planner does).
+	var ensure func(fd *FieldDef, lvl int) (*Fetch, *Sel)
+	type provided struct {
+		f   *Fetch
+		sel *Sel
+	}
+	have := map[*FieldDef]provided{} // a field of this object is delivered by one fetch only
+	ensure = func(fd *FieldDef, lvl int) (*Fetch, *Sel) {
+		if h, ok := have[fd]; ok {
+			return h.f, h.sel
+		}
+		pf, psel := provider(fd)
+		defer func() { have[fd] = provided{pf, psel} }()
+		if fd.Requires == nil || pf == cur || lvl > 6 {
+			return pf, psel
+		}
+		r := fd.Requires
+		rf, rsel := ensure(r, lvl+1)
+		if rf == pf {
+			return pf, psel
+		}
+		if rf != cur && p.reaches(rf.ID, pf.ID) {
+			kind := FEntity
+			if inArray {
+				kind = FBatch
+			}
+			pf = p.newFetch(kind, fd.Owner, path, []int{cur.ID}, t.Name)
+			local[fd.Owner] = pf
+			psel = pf.Sel
+		}
+		rsel.Field(r)
+		pf.Deps = addUniq(pf.Deps, rf.ID)
+		addReq(pf, r)
+		return pf, psel
+	}
 	perm := g.R.Perm(len(t.Fields))
 	k := 1 + g.R.Pick(len(t.Fields))
 	if k > 4 {
 		k = 4
+	}
+	if g.Opt.ReqChains && t.ChainTail != nil && g.R.Chance(3, 4) {
+		// ask for the end of the chain first
+		for i, j := range perm {
+			if t.Fields[j] == t.ChainTail {
+				perm[0], perm[i] = perm[i], perm[0]
+			}
+		}
 	}
 	var out []*plan.Field
 	if t.Name != "Query" && g.R.Chance(1, 4) {
@@ -144,22 +199,22 @@ func (g *Gen) object(p *Plan, t *TypeDef, cur *Fetch, sel *Sel, path []PathElem,
 		if fd.Target != "" && depth >= g.Opt.MaxDepth {
 			continue
 		}
-		pf, psel := provider(fd)
-		if fd.Requires != nil && pf != cur {
-			r := fd.Requires
-			rf, rsel := provider(r)
-			if rf != pf {
-				if rf != cur && p.reaches(rf.ID, pf.ID) {
-					continue // would close a dependency cycle: leave the field out of the query
-				}
-				rsel.Field(r)
-				pf.Deps = addUniq(pf.Deps, rf.ID)
-				dup := false
-				for _, x := range pf.Req {
-					dup = dup || x == r
-				}
-				if !dup {
-					pf.Req = append(pf.Req, r)
+		var pf *Fetch
+		var psel *Sel
+		if g.Opt.ReqChains {
+			pf, psel = ensure(fd, 0)
+		} else {
+			pf, psel = provider(fd)
+			if fd.Requires != nil && pf != cur {
+				r := fd.Requires
+				rf, rsel := provider(r)
+				if rf != pf {
+					if rf != cur && p.reaches(rf.ID, pf.ID) {
+						continue // would close a dependency cycle: leave the field out of the query
+					}
+					rsel.Field(r)
+					pf.Deps = addUniq(pf.Deps, rf.ID)
+					addReq(pf, r)
 				}
 			}
 		}
@@ -253,13 +308,7 @@ func (g *Gen) Plan(u *Universe) *Plan {
 	q := u.Schema.Query
 	perm := g.R.Perm(len(q.Fields))
 	k := 1 + g.R.Pick(len(q.Fields))
-	for i := 0; i < k; i++ {
-		fd := q.Fields[perm[i]]
-		rf, ok := roots[fd.Owner]
-		if !ok {
-			rf = p.newFetch(FSingle, fd.Owner, nil, nil, "Query")
-			roots[fd.Owner] = rf
-		}
+	addRoot := func(fd *FieldDef, rf *Fetch) {
 		sf := rf.Sel.Field(fd)
 		var val *plan.Node
 		switch {
@@ -276,6 +325,34 @@ func (g *Gen) Plan(u *Universe) *Plan {
 		f := &plan.Field{Name: fd.Name, Value: val}
 		p.Prov[f] = rf.ID
 		root.Fields = append(root.Fields, f)
+	}
+	for i := 0; i < k; i++ {
+		fd := q.Fields[perm[i]]
+		rf, ok := roots[fd.Owner]
+		if !ok {
+			rf = p.newFetch(FSingle, fd.Owner, nil, nil, "Query")
+			roots[fd.Owner] = rf
+		}
+		addRoot(fd, rf)
+	}
+	nDep := 0
+	if g.Opt.DepSingles {
+		// further root fields come from Single fetches of their own that depend on an entity / batch fetch planned so far
+		for i := k; i < len(perm); i++ {
+			var cands []*Fetch
+			for _, f := range p.Fetches {
+				if f.Kind != FSingle {
+					cands = append(cands, f)
+				}
+			}
+			if len(cands) == 0 || !g.R.Chance(2, 3) {
+				continue
+			}
+			dep := common.PickOf(g.R, cands)
+			// a datasource of its own (errors are attributed by subgraph name and path; everything below it is an entity fetch)
+			nDep++
+			addRoot(q.Fields[perm[i]], p.newFetch(FSingle, u.Schema.NSub+nDep, nil, []int{dep.ID}, "Query"))
+		}
 	}
 	p.Root = root
 	p.Finalize(g.Opt.SharedOps)
